@@ -1295,6 +1295,8 @@ def str_to_man_exp(x, base=10):
     x = x.lower().rstrip('l')
     # Verify that the input is a valid float literal
     float(x)
+    # Digit separators are not digits
+    x = x.replace('_', '')
     # Split into mantissa, exponent
     parts = x.split('e')
     if len(parts) == 1:
@@ -1308,6 +1310,9 @@ def str_to_man_exp(x, base=10):
         a, b = parts[0], parts[1].rstrip('0')
         exp -= len(b)
         x = a + b
+        # '.0', '-.0': only a sign is left
+        if x in ('', '+', '-'):
+            x += '0'
     x = MPZ(int(x, base))
     return x, exp
 
